@@ -60,6 +60,7 @@ type ctx struct {
 	engine      string
 	start       time.Time
 
+	altMod        string
 	regressTotal  int
 	regressFailed []string
 }
@@ -89,7 +90,18 @@ func main() {
 		c.seed = n
 	}
 	c.build = filepath.Join(c.root, ".build", c.id)
+	if c.repo != "/repo" {
+		// checks against another checkout of the repository (scratch worktrees, snapshots) get
+		// their own build directory and an alternate go.mod whose replace directive points there
+		c.build = filepath.Join(c.root, ".build", c.id+"-"+sanitize(c.repo))
+	}
+	if v := os.Getenv("VERIF_BUILD"); v != "" {
+		c.build = v
+	}
 	must(os.MkdirAll(c.build, 0o755))
+	if c.repo != "/repo" {
+		must(c.writeAltMod())
+	}
 	// scratch space: memory-backed when available (the engines are dominated by small file operations)
 	base := os.Getenv("VERIF_TMP")
 	if base == "" {
@@ -141,6 +153,25 @@ func must(err error) {
 	}
 }
 
+// writeAltMod writes <build>/go.alt.mod (+ .sum): the harness module with its replace directive
+// pointing at c.repo instead of /repo.
+func (c *ctx) writeAltMod() error {
+	data, err := os.ReadFile(filepath.Join(c.harness, "go.mod"))
+	if err != nil {
+		return err
+	}
+	alt := strings.Replace(string(data), "=> /repo", "=> "+c.repo, 1)
+	c.altMod = filepath.Join(c.build, "go.alt.mod")
+	if err := os.WriteFile(c.altMod, []byte(alt), 0o644); err != nil {
+		return err
+	}
+	sum, err := os.ReadFile(filepath.Join(c.harness, "go.sum"))
+	if err != nil {
+		return err
+	}
+	return os.WriteFile(filepath.Join(c.build, "go.alt.sum"), sum, 0o644)
+}
+
 func (c *ctx) goEnv(mod string) []string {
 	env := os.Environ()
 	env = append(env, "GOFLAGS=-mod="+mod, "GOPROXY=off", "GOSUMDB=off", "GOTOOLCHAIN=local", "CGO_ENABLED=1")
@@ -156,6 +187,9 @@ func (c *ctx) buildEngineOf(engine string, race bool) (string, error) {
 	if race {
 		out = filepath.Join(c.build, engine+"-race.test")
 		args = []string{"test", "-c", "-race", "-tags", "verif", "-o", out}
+	}
+	if c.altMod != "" {
+		args = append(args, "-modfile="+c.altMod)
 	}
 	args = append(args, "./"+engine)
 	cmd := exec.Command("go", args...)
@@ -227,7 +261,11 @@ func (c *ctx) runFuzz(spec ev.ShardSpec) shardResult {
 	}
 	cx, cancel := context.WithTimeout(context.Background(), timeout)
 	defer cancel()
-	args := []string{"test", "-tags", "verif", "-run", "^$", "-fuzz", spec.Test, "-fuzztime", fuzztime, "./" + c.engineOf(spec)}
+	args := []string{"test", "-tags", "verif", "-run", "^$", "-fuzz", spec.Test, "-fuzztime", fuzztime}
+	if c.altMod != "" {
+		args = append(args, "-modfile="+c.altMod)
+	}
+	args = append(args, "./"+c.engineOf(spec))
 	cmd := exec.CommandContext(cx, "go", args...)
 	cmd.Dir = c.harness
 	env := append(c.goEnv("mod"), "VERIF_ID="+c.id, "VERIF_TIER="+c.tier, "VERIF_ROOT="+c.root, "VERIF_REPO="+c.repo)
@@ -705,7 +743,7 @@ func (c *ctx) merge(plan *ev.Plan, results []shardResult, crashes []crashRec, bi
 	// crashes / stalls
 	exit := 0
 	var lines []string
-	replayDir := filepath.Join(c.root, "replays", c.id)
+	replayDir := filepath.Join(envOr("VERIF_REPLAYS", filepath.Join(c.root, "replays")), c.id)
 	blocked, unrecovered := 0, 0
 	confirmed := false
 	for _, cr := range crashes {
@@ -860,8 +898,9 @@ func (c *ctx) merge(plan *ev.Plan, results []shardResult, crashes []crashRec, bi
 		"violations":  nvio,
 	}
 	data, _ := json.MarshalIndent(evidence, "", " ")
-	_ = os.MkdirAll(filepath.Join(c.root, "evidence"), 0o755)
-	_ = os.WriteFile(filepath.Join(c.root, "evidence", c.id+".json"), append(data, '\n'), 0o644)
+	evDir := envOr("VERIF_EVIDENCE", filepath.Join(c.root, "evidence")) // overridden when a check is run against a scratch checkout
+	_ = os.MkdirAll(evDir, 0o755)
+	_ = os.WriteFile(filepath.Join(evDir, c.id+".json"), append(data, '\n'), 0o644)
 
 	fmt.Printf("%s %s: %d cases, %d distinct non-trivial, %d/%d shards completed, %.1fs\n", c.id, c.tier, evals, len(union), completed, len(plan.Shards), time.Since(c.start).Seconds())
 	for _, l := range lines {
